@@ -542,6 +542,7 @@ func (pc *PeerConnection) OnConnectionStateChange(f func(PeerConnectionState)) {
 
 func (pc *PeerConnection) onConnectionStateChange(cs PeerConnectionState) {
 	pc.connectionState.Store(cs)
+	verifEvent("connstate", pc, cs)
 	pc.log.Infof("peer connection state changed: %s", cs)
 	if handler, ok := pc.onConnectionStateChangeHandler.Load().(func(PeerConnectionState)); ok && handler != nil {
 		go handler(cs)
@@ -870,6 +871,7 @@ func (pc *PeerConnection) updateConnectionState(
 		connectionState = PeerConnectionStateConnected
 	}
 
+	verifYield("pc.ucs.computed", pc)
 	if pc.connectionState.Load() == connectionState {
 		return
 	}
@@ -2506,6 +2508,7 @@ func (pc *PeerConnection) close(shouldGracefullyClose bool) error { //nolint:cyc
 	// https://www.w3.org/TR/webrtc/#dom-rtcpeerconnection-close (step #1)
 	// https://www.w3.org/TR/webrtc/#dom-rtcpeerconnection-close (step #2)
 
+	verifYield("pc.close.enter", pc)
 	pc.mu.Lock()
 	// A lock in this critical section is needed because pc.isClosed and
 	// pc.isGracefullyClosingOrClosed are related to each other in that we
@@ -2615,6 +2618,7 @@ func (pc *PeerConnection) close(shouldGracefullyClose bool) error { //nolint:cyc
 	}
 
 	// https://www.w3.org/TR/webrtc/#dom-rtcpeerconnection-close (step #11)
+	verifYield("pc.close.step11", pc)
 	pc.updateConnectionState(pc.ICEConnectionState(), pc.dtlsTransport.State())
 
 	closeErrs = append(closeErrs, doGracefulCloseOps()...)
